@@ -578,6 +578,7 @@ where
 		});
 
 		context.payment_proof_derivation_index = Some(deriv_path);
+		context.payment_proof_recipient = Some(a.pub_key);
 	}
 
 	// Save the aggsig context in our DB for when we
